@@ -80,13 +80,14 @@ def rebuild_rule(repo: Repo, rep: Report, rid: str) -> None:
     rep.check(ok, rid, f"{fi.key}:order", "write -> _buf -> _update -> _proxify, each on every normal path",
               f"_rebuild lost a step or the order (write={len(W)}, store _buf={len(B)}, _update={len(U)}, _proxify={len(P)})", fi.loc())
     # the member is written at its own offset into a copy of the current buffer
-    sk = [n for n in g.nodes if n.kind == "stmt" and any(norm(c.args[0]) == "field.offset" for c in node_calls(n, "seek") if c.args)]
+    look = [s for s in walk_body(fi.node.body) if isinstance(s, ast.Assign) and isinstance(s.targets[0], ast.Name) and "lookup[" in norm(s.value)]
+    fvar = norm(look[0].targets[0]) if look else "field"
+    sk = [n for n in g.nodes if n.kind == "stmt" and any(norm(c.args[0]) == f"{fvar}.offset" for c in node_calls(n, "seek") if c.args)]
     rep.check(bool(sk) and bool(W) and g.must_pass(sk[0].id, g.exit.id, {W[0].id}) and any("cur_buf" in norm(s.value) for s in walk_body(fi.node.body)
                                                                                           if isinstance(s, ast.Assign) and norm(s.targets[0]) == "buf"),
               rid, f"{fi.key}:offset", "member written at field.offset of a copy of the current bytes", "_rebuild does not write the member at its offset into the current bytes", fi.loc())
     bufv = [c for n in B for c in ast.walk(n.ast) if isinstance(c, ast.Call) and call_name(c) == "__setattr__"]
     rep.check(bool(bufv) and norm(bufv[0].args[2]) == "buf.getvalue()", rid, f"{fi.key}:bytes", "_buf = buf.getvalue()", "_buf is not the rewritten buffer", fi.loc())
-    look = [s for s in walk_body(fi.node.body) if isinstance(s, ast.Assign) and norm(s.targets[0]) == "field"]
     rep.check(bool(look) and norm(look[0].value) == f"self.__class__.lookup[{fi.params[1]}]", rid, f"{fi.key}:lookup", "member resolved in the union's own lookup",
               "_rebuild no longer resolves the member in the union's own lookup", fi.loc())
 
